@@ -102,11 +102,13 @@ theorem coverage_does_not_imply_enclosure :
 def built (recs : List Rec) : Index := (addAll {} recs).1
 
 /-- `chunks_complete` for `internal.Index`: for every query `[beg, stop)` with `0 ≤ beg < stop` and
-every placed record overlapping it whose bin is among the candidate bins, `Chunks` succeeds and, after
+every placed record with a non-empty reference interval (an empty one — `End() = Pos`, a CIGAR without
+reference-consuming operation — overlaps nothing; such records are still covered by `add_never_fails`,
+`bins_inv`, `tiles_inv` and `stats_true`) overlapping it whose bin is among the candidate bins, `Chunks` succeeds and, after
 any strategy `s` with `EncLaw`, one returned chunk encloses the record's chunk; the same after
 `MergeChunks pre` for any `pre` with `EncLaw` -/
 theorem chunks_complete (recs : List Rec) (h : SortedInput recs) (r : Rec) (hr : r ∈ recs)
-    (hp : r.placed = true) (beg stop : Int) (bins : List Nat) (hb : 0 ≤ beg) (hq : beg < stop)
+    (hp : r.placed = true) (hne : r.start < r.stop) (beg stop : Int) (bins : List Nat) (hb : 0 ≤ beg) (hq : beg < stop)
     (hov : beg < r.stop) (hbin : r.bin ∈ bins)
     (pre s : List Chunk → List Chunk) (hpre : EncLaw pre) (hs : EncLaw s) :
     (∃ cs, chunks (built recs) r.rid beg stop bins = .ok cs ∧ coveredBy (s cs) r.chunk) ∧
@@ -116,10 +118,10 @@ theorem chunks_complete (recs : List Rec) (h : SortedInput recs) (r : Rec) (hr :
     rw [List.mem_reverse, List.mem_filter]; exact ⟨hr, hp⟩
   have hok := h.ok r hr
   constructor
-  · obtain ⟨cs, h1, h2, c, hc, hce⟩ := chunks_complete_cover _ _ inv.cover r hmem hok.ce (hok.pos hp) beg stop bins hb hq hov hbin
+  · obtain ⟨cs, h1, h2, c, hc, hce⟩ := chunks_complete_cover _ _ inv.cover r hmem hok.ce ⟨(hok.pos hp).1, hne⟩ beg stop bins hb hq hov hbin
     exact ⟨cs, h1, coveredBy_trans (hs cs h2 c hc) hce⟩
   · obtain ⟨cs, h1, h2, c, hc, hce⟩ := chunks_complete_cover _ _ (mergeChunks_cover pre hpre _ _ inv.cover) r hmem
-      hok.ce (hok.pos hp) beg stop bins hb hq hov hbin
+      hok.ce ⟨(hok.pos hp).1, hne⟩ beg stop bins hb hq hov hbin
     exact ⟨cs, h1, coveredBy_trans (hs cs h2 c hc) hce⟩
 
 /-! ### BAI: `bam.Index` -/
@@ -132,10 +134,11 @@ def baiBuilt (recs : List Bai.BaiRec) : Index := built (recs.map baiRec)
 
 /-- the bin law of C16 in the form needed here: the bin `Record.Bin` files a placed record under is
 listed by `OverlappingBinsFor` for every overlapping query in range -/
-theorem bai_bin_law (r : Rec) (hok : RecOK r) (hp : r.placed = true) (hbin : r.bin = Coord.binFor r.start r.stop)
+theorem bai_bin_law (r : Rec) (hok : RecOK r) (hp : r.placed = true) (hlt : r.start < r.stop)
+    (hbin : r.bin = Coord.binFor r.start r.stop)
     (beg stop : Int) (hb : 0 ≤ beg) (hq : beg < stop) (hs : stop ≤ 536870912)
     (hov1 : r.start < stop) (hov2 : beg < r.stop) : r.bin ∈ Coord.overlappingBinsFor beg stop := by
-  obtain ⟨h0, hlt⟩ := hok.pos hp
+  obtain ⟨h0, _⟩ := hok.pos hp
   have hv := hok.vstop
   simp only [validPos, Bool.and_eq_true, decide_eq_true_eq] at hv
   have := Hts.Props.C16.bai_bin_in_bins r.start.toNat r.stop.toNat beg.toNat stop.toNat
@@ -153,7 +156,7 @@ theorem bai_bin_law (r : Rec) (hok : RecOK r) (hp : r.placed = true) (hbin : r.b
 `bam.Index.Chunks` returns no error and one returned chunk encloses the record's chunk — with the
 default strategy or any `MergeStrategy` satisfying `EncLaw`, and also after `MergeChunks pre` -/
 theorem bai_chunks_complete (recs : List Bai.BaiRec) (h : SortedInput (recs.map baiRec))
-    (r : Bai.BaiRec) (hr : r ∈ recs) (hp : (baiRec r).placed = true)
+    (r : Bai.BaiRec) (hr : r ∈ recs) (hp : (baiRec r).placed = true) (hne : r.pos < r.stop)
     (beg stop : Int) (hb : 0 ≤ beg) (hq : beg < stop) (hs29 : stop ≤ 536870912)
     (hov1 : r.pos < stop) (hov2 : beg < r.stop)
     (pre s : List Chunk → List Chunk) (hpre : EncLaw pre) (hs : EncLaw s) :
@@ -162,8 +165,8 @@ theorem bai_chunks_complete (recs : List Bai.BaiRec) (h : SortedInput (recs.map 
     (∃ cs, Bai.chunks Coord.overlappingBinsFor s (mergeChunks pre (baiBuilt recs)) (baiRec r).rid beg stop = .ok cs ∧
         coveredBy cs r.chunk) := by
   have hmem : baiRec r ∈ recs.map baiRec := List.mem_map.2 ⟨r, hr, rfl⟩
-  have hbin := bai_bin_law (baiRec r) (h.ok _ hmem) hp rfl beg stop hb hq hs29 hov1 hov2
-  obtain ⟨⟨cs, h1, h2⟩, ⟨cs', h1', h2'⟩⟩ := chunks_complete (recs.map baiRec) h (baiRec r) hmem hp beg stop
+  have hbin := bai_bin_law (baiRec r) (h.ok _ hmem) hp hne rfl beg stop hb hq hs29 hov1 hov2
+  obtain ⟨⟨cs, h1, h2⟩, ⟨cs', h1', h2'⟩⟩ := chunks_complete (recs.map baiRec) h (baiRec r) hmem hp hne beg stop
     (Coord.overlappingBinsFor beg stop) hb hq hov2 hbin pre s hpre hs
   constructor
   · refine ⟨s cs, ?_, h2⟩
@@ -180,9 +183,10 @@ theorem bai_error_or_empty_means_no_overlap (recs : List Bai.BaiRec) (h : Sorted
     (s : List Chunk → List Chunk) (hs : EncLaw s)
     (hans : (∃ e, Bai.chunks Coord.overlappingBinsFor s (baiBuilt recs) rid beg stop = .error e) ∨
             Bai.chunks Coord.overlappingBinsFor s (baiBuilt recs) rid beg stop = .ok []) :
-    ¬ ∃ r, r ∈ recs ∧ (baiRec r).placed = true ∧ (baiRec r).rid = rid ∧ r.pos < stop ∧ beg < r.stop := by
-  rintro ⟨r, hr, hp, hrid, hov1, hov2⟩
-  obtain ⟨⟨cs, h1, c, hc, _⟩, _⟩ := bai_chunks_complete recs h r hr hp beg stop hb hq hs29 hov1 hov2 id s encLaw_id hs
+    ¬ ∃ r, r ∈ recs ∧ (baiRec r).placed = true ∧ (baiRec r).rid = rid ∧ r.pos < r.stop ∧ r.pos < stop ∧
+      beg < r.stop := by
+  rintro ⟨r, hr, hp, hrid, hne, hov1, hov2⟩
+  obtain ⟨⟨cs, h1, c, hc, _⟩, _⟩ := bai_chunks_complete recs h r hr hp hne beg stop hb hq hs29 hov1 hov2 id s encLaw_id hs
   rw [hrid] at h1
   rcases hans with ⟨e, he⟩ | he
   · rw [he] at h1; cases h1
@@ -321,7 +325,7 @@ theorem tabix_add_never_fails (hdr : Header) (recs : List TRec) (h : SortedInput
 /-- `chunks_complete` for tabix: the `k`-th record, if placed, is covered by one chunk of the answer
 to every overlapping in-range query on its reference NAME; also after `MergeChunks pre` -/
 theorem tabix_chunks_complete (hdr : Header) (recs : List TRec) (h : SortedInput (tbxTrace hdr recs))
-    (k : Nat) (r : TRec) (hk : recs[k]? = some r) (hp : r.placed = true)
+    (k : Nat) (r : TRec) (hk : recs[k]? = some r) (hp : r.placed = true) (hne : r.start < r.stop)
     (beg stop : Int) (hb : 0 ≤ beg) (hq : beg < stop) (hs29 : stop ≤ 536870912)
     (hov1 : r.start < stop) (hov2 : beg < r.stop)
     (pre : List Chunk → List Chunk) (hpre : EncLaw pre) :
@@ -339,8 +343,9 @@ theorem tabix_chunks_complete (hdr : Header) (recs : List TRec) (h : SortedInput
     (Tabix.addAll_idx Coord.binFor recs (tbxNew hdr)).1
   have hokx := h.ok x hxmem
   have hrid := hokx.rid hpx
-  have hbin := bai_bin_law x hokx hpx (by rw [hxb, hxs, hxe]) beg stop hb hq hs29 (by omega) (by omega)
-  obtain ⟨⟨cs, h1, h2⟩, ⟨cs', h1', h2'⟩⟩ := chunks_complete (tbxTrace hdr recs) h x hxmem hpx beg stop
+  have hnex : x.start < x.stop := by rw [hxs, hxe]; exact hne
+  have hbin := bai_bin_law x hokx hpx hnex (by rw [hxb, hxs, hxe]) beg stop hb hq hs29 (by omega) (by omega)
+  obtain ⟨⟨cs, h1, h2⟩, ⟨cs', h1', h2'⟩⟩ := chunks_complete (tbxTrace hdr recs) h x hxmem hpx hnex beg stop
     (Coord.overlappingBinsFor beg stop) hb hq (by omega) hbin pre Local.adjacent hpre Local.encLaw_adjacent
   have hcast : ((x.rid.toNat : Nat) : Int) = x.rid := by omega
   constructor
@@ -358,9 +363,10 @@ theorem tabix_error_or_empty_means_no_overlap (hdr : Header) (recs : List TRec)
     (hs29 : stop ≤ 536870912)
     (hans : (∃ e, Tabix.chunks Coord.overlappingBinsFor Local.adjacent (tbxBuilt hdr recs) name beg stop = .error e) ∨
             Tabix.chunks Coord.overlappingBinsFor Local.adjacent (tbxBuilt hdr recs) name beg stop = .ok []) :
-    ¬ ∃ (k : Nat) (r : TRec), recs[k]? = some r ∧ r.placed = true ∧ r.name = name ∧ r.start < stop ∧ beg < r.stop := by
-  rintro ⟨k, r, hk, hp, hn, hov1, hov2⟩
-  obtain ⟨⟨cs, h1, c, hc, _⟩, _⟩ := tabix_chunks_complete hdr recs h k r hk hp beg stop hb hq hs29 hov1 hov2 id encLaw_id
+    ¬ ∃ (k : Nat) (r : TRec), recs[k]? = some r ∧ r.placed = true ∧ r.name = name ∧ r.start < r.stop ∧
+      r.start < stop ∧ beg < r.stop := by
+  rintro ⟨k, r, hk, hp, hn, hne, hov1, hov2⟩
+  obtain ⟨⟨cs, h1, c, hc, _⟩, _⟩ := tabix_chunks_complete hdr recs h k r hk hp hne beg stop hb hq hs29 hov1 hov2 id encLaw_id
   rw [hn] at h1
   rcases hans with ⟨e, he⟩ | he
   · rw [he] at h1; cases h1
@@ -378,15 +384,16 @@ def exBai : List Bai.BaiRec :=
     ⟨true, 0, 16000, 16500, false, false, ⟨150, 200⟩⟩,
     ⟨false, -1, -1, 0, true, true, ⟨200, 250⟩⟩,
     ⟨true, 2, 5, 40000, false, true, ⟨250, 300⟩⟩,
-    ⟨true, 2, 20000, 20001, true, true, ⟨300, 65536⟩⟩ ]
+    ⟨true, 2, 20000, 20001, true, true, ⟨300, 65536⟩⟩,
+    ⟨true, 2, 32768, 32768, false, false, ⟨65536, 65600⟩⟩ ]   -- CIGAR `5I`: End() = Pos, at a tile edge
 
 example : SortedInput (exBai.map baiRec) := by decide
-example : (addAll {} (exBai.map baiRec)).2 = [.ok, .ok, .ok, .ok, .ok] := by decide
+example : (addAll {} (exBai.map baiRec)).2 = [.ok, .ok, .ok, .ok, .ok, .ok] := by decide
 /-- the theorem applied: the tile-straddling record is found by a query inside its second tile -/
 example : ∃ cs, Bai.chunks Coord.overlappingBinsFor Local.adjacent (baiBuilt exBai) 0 16400 16450 = .ok cs ∧
     coveredBy cs ⟨150, 200⟩ :=
   (bai_chunks_complete exBai (by decide) ⟨true, 0, 16000, 16500, false, false, ⟨150, 200⟩⟩ (by decide) (by decide)
-    16400 16450 (by decide) (by decide) (by decide) (by decide) (by decide) id Local.adjacent encLaw_id
+    (by decide) 16400 16450 (by decide) (by decide) (by decide) (by decide) (by decide) id Local.adjacent encLaw_id
     adjacent_encloses).1
 example : EncLaw (Local.compressor (-1)) := compressor_encloses (-1)
 
@@ -400,7 +407,7 @@ example : SortedInput (tbxTrace {} exTbx) := by decide
 example : (tbxBuilt {} exTbx).names = [[99, 104, 114, 49], [99, 104, 114, 50]] := by decide
 example : ∃ cs, Tabix.chunks Coord.overlappingBinsFor Local.adjacent (tbxBuilt {} exTbx) [99, 104, 114, 50] 39000 39500
     = .ok cs ∧ coveredBy cs ⟨250, 300⟩ :=
-  (tabix_chunks_complete {} exTbx (by decide) 3 _ rfl (by decide) 39000 39500 (by decide) (by decide) (by decide)
+  (tabix_chunks_complete {} exTbx (by decide) 3 _ rfl (by decide) (by decide) 39000 39500 (by decide) (by decide) (by decide)
     (by decide) (by decide) id encLaw_id).1
 
 /-- a small CSI geometry (minShift 4, depth 2: positions below 1024) with a record over two finest bins -/
